@@ -15,7 +15,9 @@ REGISTRATION = {
     "text": "The GGUF decoder is modelled as a total Lean function whose outcomes include every Go panic site and every "
             "input-sized allocation, with one flag per validation the decoder performs. Theorems: with the validations "
             "the working tree has (all eleven, after the fix commits; Guards.tree) the decoder never panics and never makes an "
-            "allocation above the budget, for every byte string, array limit and budget (decode_safe_tree, unconditional); "
+            "allocation above the budget, for every byte string, array limit and per-allocation budget of at least one byte per input byte "
+            "(decode_safe_tree, unconditional; which syntactic sites of the decode path can panic or size an allocation is regenerated from the "
+            "source by go/ast on every run and must not exceed what the model accounts for: Tie.C10.risky_sites_accounted); "
             "the same under explicit decidable guards for any subset of validations (decode_safe_partial), with a "
             "kernel-checked witness file for every validation upstream's pinned code lacks; termination by construction. "
             "create's loop over several models in one upload (server/create.go ggufLayers) is modelled on top, with "
@@ -24,7 +26,7 @@ REGISTRATION = {
             "upstream's pinned decoder has a 57-byte witness on which create never answers. Running time and result size as functions of "
             "the input length (decode_total_tree): the decoder model with an iteration counter on every loop is the decoder model "
             "(erasure) and executes at most len+1 loop iterations whatever 64-bit counts the file declares; a returned value retains at "
-            "most len+24 bytes/cells; both for every guard set (decode_steps_any_guards). The typed metadata accessors the "
+            "most len+24 cells = at most 128*len+3072 bytes of Go memory (explicit header / interface / map-slot / struct sizes); both for every guard set (decode_steps_any_guards). The typed metadata accessors the "
             "handlers call on the decoded key/values (Kind, Architecture, FileType, ChatTemplate, vision.block_count → media "
             "type) are in the model with the failed type assertion as an outcome: never reached on the tree "
             "(create_upload_safe_tree), 60-byte witness for upstream's unchecked assertion. "
@@ -44,13 +46,16 @@ REGISTRATION = {
             "not verified: bufio/bytes/io library behaviour, the Go allocator.",
 }
 
-MODULES = ["OllamaVerif.Properties.C10"]
+MODULES = ["OllamaVerif.Properties.C10", "OllamaVerif.Tie.C10"]
 THEOREMS = [
     "OllamaVerif.C10.decode_safe_tree",
     "OllamaVerif.C10.decode_safe_hardened",
     "OllamaVerif.C10.decode_safe_partial",
     "OllamaVerif.C10.decode_total_tree",
     "OllamaVerif.C10.decode_steps_any_guards",
+    "OllamaVerif.C10.decode_progress",
+    "OllamaVerif.C10.alloc_clause_bites",
+    "OllamaVerif.C10.tree_rejects_negative_seek_file",
     "OllamaVerif.C10.create_terminates_tree",
     "OllamaVerif.C10.create_safe_tree",
     "OllamaVerif.C10.create_layers_within",
@@ -71,7 +76,42 @@ THEOREMS = [
     "OllamaVerif.C10.witness_v1_string_zero",
     "OllamaVerif.C10.witness_v1_array_index",
     "OllamaVerif.C10.witness_end_before_start",
+    "OllamaVerif.Tie.C10.risky_sites_accounted",
 ]
+SITE_KINDS = ["assert-unchecked", "div-nonconst", "index-nonconst", "make-unbounded", "slice-nonconst", "truncate"]
+SITE_BOUNDS = [0, 3, 0, 0, 1, 1]          # = Tie.C10.modelled (what the decoder model accounts for)
+REQUIRED_API = ["api_cases", "api_multi_model_files", "api_rawtype_files"]
+
+
+def regenerate_sites(ctx):
+    """Tie 1: risky syntactic sites of the decode path, regenerated by go/ast (harness/cmd/ggufsites) from the tree under
+    test; consumed by Tie/C10.lean (`decide`)."""
+    env = dict(os.environ)
+    env.update({"GGUF_REPO": core.REPO, "GOFLAGS": "-mod=mod", "GOPROXY": "off"})
+    p = subprocess.run(["go", "run", os.path.join(core.ROOT, "harness", "cmd", "ggufsites", "main.go")],
+                       cwd="/", env=env, stdout=subprocess.PIPE, stderr=subprocess.STDOUT, text=True)
+    counts = {m.group(1): int(m.group(2)) for m in re.finditer(r"^count (\S+) (\d+)$", p.stdout, re.M)}
+    sites = [m.group(1) for m in re.finditer(r"^site (.*)$", p.stdout, re.M)]
+    ok = p.returncode == 0 and all(k in counts for k in SITE_KINDS)
+    row = [counts.get(k, 999) for k in SITE_KINDS] if ok else [999] * len(SITE_KINDS)
+    q = lambda x: '"' + x.replace("\\", "\\\\").replace('"', '\\"') + '"'
+    body = ("-- REGENERATED on every run by vlib/checks/c10.py (harness/cmd/ggufsites, go/ast) from the tree under test. Do not edit.\n"
+            "namespace OllamaVerif.Generated.C10\n"
+            "/-- risky syntactic sites in everything reachable from the decoder entry points and keyValue, in the order\n"
+            "    " + ", ".join(SITE_KINDS) + " -/\n"
+            "def riskyCounts : List Nat := [" + ", ".join(str(n) for n in row) + "]\n"
+            "def riskySites : List String := [" + ", ".join(q(x) for x in sites) + "]\n"
+            "end OllamaVerif.Generated.C10\n")
+    core.write_generated("OllamaVerif/Generated/C10_Sites.lean", body)
+    ctx.coverage["decode_path_risky_sites"] = dict(zip(SITE_KINDS, row))
+    over = [f"{k}: {n} > {b}" for k, n, b in zip(SITE_KINDS, row, SITE_BOUNDS) if n > b]
+    if not ok:
+        ctx.violation("tie-risky-sites", "", "site extractor failed: " + p.stdout[-600:], no_input=True)
+    elif over:
+        ctx.violation("tie-risky-sites", "", "the decode path has risky syntactic sites the decoder model does not account for ("
+                      + "; ".join(over) + "): " + " | ".join(x for x in sites if x.split()[0] in {o.split(":")[0] for o in over}),
+                      no_input=True)
+
 OVERLAY = {
     "fs/ggml/zz_verif_gguf_test.go": "fs_ggml/zz_verif_gguf_test.go",
     "fs/ggml/zz_verif_c10_test.go": "fs_ggml/zz_verif_c10_test.go",
@@ -134,9 +174,10 @@ def run_worker(ctx, binary, ops, outdir, total, hang_s=60, name="impl.txt"):
             cur = sum(1 for _ in open(impl))
             if cur != last:
                 last, last_t = cur, time.time()
-            elif time.time() - last_t > (hang_s if hangs == 0 else min(hang_s, 8)):
+            elif time.time() - last_t > (hang_s if hangs == 0 else min(hang_s, 20)):
                 # the first hang of a run is given the full limit; once one input has not answered for that long the
-                # later ones are given 8 s (a decode of these inputs takes microseconds)
+                # later ones are given 20 s (a decode of these inputs takes microseconds; the limit includes the start of the
+                # worker process on a loaded machine)
                 p.kill()
                 hung = True
         out = p.stdout.read().decode(errors="replace")
@@ -161,6 +202,7 @@ def run_worker(ctx, binary, ops, outdir, total, hang_s=60, name="impl.txt"):
 
 
 def run(ctx):
+    regenerate_sites(ctx)
     ctx.lean_check(MODULES, THEOREMS)
     binary = ctx.go_test_binary("./fs/ggml/", OVERLAY)
     if not binary:
@@ -180,6 +222,8 @@ def run(ctx):
             return ctx.finish(rule="generator failed")
         ops = os.path.join(outdir, "ops.txt")
         gst = ctx.read_stats(outdir)
+        if gst.get("gen_sites_capped", 0):
+            ctx.violation("correspondence-coverage", "", "VERIF_SITES_MAX cut the structured site x value product short", no_input=True)
         gmissing = [k for k in REQUIRED_GEN if gst.get(k, 0) == 0]
         if gmissing:
             ctx.violation("correspondence-coverage", "", "input classes never generated in this run: " + ", ".join(gmissing), no_input=True)
@@ -216,6 +260,8 @@ def run(ctx):
     ctx.coverage["l1_distinct_ops"] = len(distinct)
     ctx.coverage["outcome_classes"] = dict(sorted(classes.items()))
     ctx.coverage["gray_zone_inputs"] = gray
+    if gray * 100 > max(len(oplines), 1):
+        ctx.violation("correspondence-coverage", "", f"{gray} of {len(oplines)} inputs fall into the allocation gray zone (not compared)", no_input=True)
     if any(a == "skipped" for a in impl) and not any(f["kind"] == "hang" for f in failures):
         ctx.violation("correspondence-coverage", "", "inputs skipped without a reported hang", no_input=True)
     if not ctx.replay:
@@ -276,7 +322,7 @@ def run(ctx):
             dops = os.path.join(outdir, "directed_ops.txt")
             with open(dops, "w") as f:
                 f.write("\n".join(cand) + "\n")
-            dimpl = run_worker(ctx, binary, dops, outdir, len(cand), hang_s=4, name="directed_impl.txt")
+            dimpl = run_worker(ctx, binary, dops, outdir, len(cand), hang_s=20, name="directed_impl.txt")
             ctx.coverage["directed_search_inputs"] = len(cand)
             for op, a in zip(cand, dimpl):
                 if a.startswith("panic:") or a in ("alloc", "hang") or a.startswith("death"):
@@ -290,7 +336,10 @@ def run(ctx):
                                       env={"VERIF_N": ctx.scale(24, 400)}, timeout=1500)
         if rc != 0:
             ctx.violation("driver-failed", "api", out[-1500:], no_input=True)
-        ctx.read_stats(apidir)
+        ast_ = ctx.read_stats(apidir)
+        amissing = [k for k in REQUIRED_API if ast_.get(k, 0) == 0]
+        if amissing and rc == 0:
+            ctx.violation("correspondence-coverage", "api", "API-level classes never exercised: " + ", ".join(amissing), no_input=True)
         failures += ctx.l2(apidir)
         # L1 at the API level: what POST /api/create makes of each uploaded file (error / never answers / one layer
         # per model found back to back, with its byte size) vs the model of server/create.go ggufLayers
@@ -300,7 +349,7 @@ def run(ctx):
         ctx.leanchecker(MODULES)
     ctx.assumptions += [
         "allocation class: TotalAlloc delta > 4x budget, makeslice panic, or fatal out-of-memory under RLIMIT_AS=3GiB",
-        "budget = 1 MiB + 64 bytes per input byte per single allocation",
+        "run-time budget = 1 MiB + 64 bytes per input byte per single allocation (the theorems need 1 byte per input byte)",
     ]
     return ctx.finish(
         level="proof",
